@@ -50,6 +50,9 @@ def replay(r):
     e_eff = end if end >= 0 else (L + 1 + end if r["fn"] == "shuffle" else L + end)
     fn = ersatz.shuffle if r["fn"] == "shuffle" else ersatz.dinucleotide_shuffle
     for seed in ([r["seed"]] if r.get("seed") is not None else range(40)):
+        if r.get("seed_kind") == "numpy":
+            import numpy
+            seed = numpy.int64(seed)
         try:
             Y = fn(X, start=start, end=end, n=n, random_state=seed)
             Y2 = fn(X, start=start, end=end, n=n, random_state=seed)
@@ -96,7 +99,7 @@ def worker(cfg):
         out["violations"].append(C.violation(key, what, r, replay))
 
     def body(ctx):
-        seed = core.Int("seed")
+        seed = core.SNpInt(z3.Int("seed")) if cfg.get("seed_kind") == "numpy" else core.Int("seed")
         ctx.assume(seed >= 0)
         if fn == "shuffle":
             B, L = cfg["B"], cfg["L"]
@@ -106,9 +109,18 @@ def worker(cfg):
             if cfg.get("default_end"):
                 start, end = 0, -1
                 se = (0, L)
+            elif cfg.get("neg_end"):
+                # documented convention of shuffle(): a negative end counts from the end, -1 = whole sequence
+                ctx.assume(s_and(start >= 0, end < 0, end >= -L - 1, start < L + 1 + end))
+                se = None
             else:
                 ctx.assume(s_and(start >= 0, start < end, end <= L))
                 se = None
+            if se is None:
+                # the solver enumerates every admissible region; the expected region follows the documented convention
+                sv, ev = int(start), int(end)
+                start, end = sv, ev
+                se = (sv, ev if ev >= 0 else L + 1 + ev)
             xs = lambda m: C.eval_chars(m, xc)
         else:
             x = cfg["x"]
@@ -142,6 +154,8 @@ def worker(cfg):
             se = (core.model_value(mdl, start), core.model_value(mdl, end))
             if ctx.prove(s_and(start == se[0], end == se[1]), "region concretised") is not None:
                 raise core.Inconclusive("region not determined")
+            if se[1] < 0:
+                se = (se[0], L + 1 + se[1])
         s0, e0 = se
         cl = [tuple(Y.shape) == (B, n, A, L)]
         if tuple(Y.shape) != (B, n, A, L):
@@ -218,6 +232,10 @@ def configs(tier):
     for A, B, L, n in ([(2, 1, 4, 1), (3, 2, 3, 2), (4, 1, 4, 1)] if q else [(2, 1, 4, 1), (3, 2, 3, 2), (4, 1, 4, 2), (2, 2, 5, 1), (4, 1, 5, 1)]):
         cf.append(dict(fn="shuffle", A=A, B=B, L=L, n=n))
     cf.append(dict(fn="shuffle", A=2, B=1, L=3, n=2, default_end=True))
+    cf.append(dict(fn="shuffle", A=2, B=1, L=4, n=1, neg_end=True))
+    cf.append(dict(fn="shuffle", A=3, B=1, L=3, n=1, seed_kind="numpy"))
+    cf.append(dict(fn="dinucleotide", A=2, x=[[0, 1, 0, 0, 1, 1]], start=0, end=6, n=1, seed_kind="numpy"))
+
     # dinucleotide: every sequence up to renaming
     for A, L in ([(2, 4), (3, 5), (2, 6), (4, 5), (3, 6), (2, 7)] if q else [(2, 4), (3, 5), (2, 6), (4, 5), (3, 6), (3, 7), (4, 6), (4, 7), (2, 8), (3, 8)]):
         for x in canonical_sequences(L, A):
